@@ -92,6 +92,12 @@ ENGINES = [
         "kind_free_text": "TLC explores run_test's aggregation with one action per code site (main thread and solver pool threads) for every assignment of path outcomes and solver replies; behaviours are replayed through the real run_contract/_main with a scripted stub solver and gated schedules, and recorded runs are validated against the model",
     },
     {
+        "name": "hash-registry-model",
+        "path": "spec/HashRegistry.tla spec/MC_HashRegistry_*.cfg harness/hashreg_replay.py checks/c08.py",
+        "serves_properties": ["C08"],
+        "kind_free_text": "TLC model-checks the registry of hash expressions behind the storage-slot decoding (ids, block-aligned reverse lookup, copies), refutes three design mutations and enumerates operation histories that are replayed into halmos' KeccakRegistry / OffsetMap with all lookup tables compared",
+    },
+    {
         "name": "word-tables",
         "path": "spec/EvmWord.tla spec/EvmWordNat.tla spec/WordRefine.tla spec/WordTable.tla harness/wordops.py harness/progs_ops.py checks/c06.py",
         "serves_properties": ["C06"],
